@@ -4,7 +4,7 @@ namespace SmsVerif.Driver
 open SmsVerif SmsVerif.Text
 
 def codingOf (s : String) : Option Coding :=
-  if s == "ascii" then some ascii else if s == "ucs2" then some utf16 else none
+  if s == "ascii" then some ascii else if s == "ucs2" then some utf16 else if s == "latin1" then some win1252 else none
 
 def codecName : Option Codec → String
   | some .ascii => "ascii" | some .latin1 => "latin1" | some .ucs2 => "ucs2" | some .gb18030 => "gb18030"
